@@ -60,6 +60,7 @@ static std::string binOf(uint64_t v, size_t w) {
 	return s;
 }
 static std::string show(const std::string &s) { return s.empty() ? "-" : s; }
+static uint64_t binToU64(const std::string &s) { uint64_t v = 0; for (char c : s) v = (v << 1) | (c == '1'); return v; }
 
 // ---------------------------------------------------------------- circuit context
 struct Ctx {
@@ -222,7 +223,7 @@ static size_t genWidth(vh::Rng &rng, size_t round, size_t lo, size_t hi) {
 static const char *PRIMS[] = {
 	"bitcount", "decoder", "encoder", "encdec", "pe", "petree1", "petree2", "petree3", "clz", "therm", "thermw", "thermback", "thermrt",
 	"grayenc", "graydec", "grayrt", "minu", "maxu", "mins", "maxs", "bpt", "divu", "divs", "csa", "csadd", "addc",
-	"ctr_end", "ctr_w", "ctr_uend", "ctr_api_e", "ctr_api_p", "ctr_api_w", "ctr_api_u", "updown", "adder", "crc", "crcwk", "crcgen", "petreereg", "divpipe", "bad",
+	"ctr_end", "ctr_w", "ctr_uend", "ctr_api_e", "ctr_api_p", "ctr_api_w", "ctr_api_u", "updown", "adder", "crc", "crcwk", "crcgen", "petreereg", "divpipe", "graysync", "graysync_r", "bad",
 };
 static const size_t NPRIMS = sizeof(PRIMS) / sizeof(PRIMS[0]);
 
@@ -253,6 +254,8 @@ int main(int argc, char **argv) {
 			prim = apiKind == 'w' ? "ctr_w" : apiKind == 'u' ? "ctr_uend" : "ctr_end";
 		}
 		bool resetLast = rng.chance(1, 2);
+		bool graySyncReset = false;
+		if (prim == "graysync_r") { graySyncReset = true; prim = "graysync"; }
 		size_t small = std::min<size_t>(maxw, 10);  // primitives whose output has 2^w bits
 		o << "case " << id << ' ' << prim;
 		if (prim == "bitcount") {
@@ -307,6 +310,64 @@ int main(int argc, char **argv) {
 					s.set(pa.node(), v); s.eval();
 					o << "s " << v << " > " << s.getPin(ov.node()) << ' ' << s.getPin(ovv.node()) << '\n';
 					s.sim.advance(T);
+				}
+			} catch (const std::exception &e) { o << "err " << errClass(e) << '\n'; }
+		} else if (prim == "graysync") {
+			// scl::synchronizeGrayCode (cdc.cpp:72-82), both overloads: [input register @inClock] -> outStages registers @outClock, all holding
+			// gray code; with the reset overload every register resets to grayEncode(reset).  Two free-running clocks with periods pA, pB ns
+			// (edges at k*pA, k*pB: equal periods and ratios give coincident edges).  One line per clock-edge instant, from power-on:
+			//   p > <out>                      output right after power-on (both domains in reset)
+			//   e <A|B|AB> <in> > <out>        <in> was applied before the edge(s), <out> sampled after them
+			bool withReset = graySyncReset;
+			size_t w = 1 + (round % 8);
+			if (round >= 16) w = 1 + rng.below(std::min<size_t>(maxw, 24));
+			size_t outStages = 2 + rng.below(3); bool inStage = !rng.chance(1, 3);
+			static const unsigned periods[][2] = { {4, 4}, {4, 6}, {6, 4}, {3, 7}, {7, 3}, {2, 8}, {8, 2}, {5, 5}, {4, 10}, {9, 6} };
+			auto &pp = periods[rng.below(10)];
+			unsigned pA = pp[0], pB = pp[1];
+			uint64_t resetValue = 0;
+			if (withReset) resetValue = (w <= 4 && round < 16) ? (round * 5 + 2) % (1ull << w) : (rng.next() & ((w >= 64 ? ~0ull : (1ull << w) - 1)));
+			if (withReset && rng.chance(1, 6)) resetValue = (w >= 64 ? ~0ull : (1ull << w) - 1);
+			o << ' ' << w << ' ' << withReset << ' ' << resetValue << ' ' << outStages << ' ' << inStage << ' ' << pA << ' ' << pB << '\n';
+			try {
+				DesignScope design;
+				Clock clkA({ .absoluteFrequency = hlim::ClockRational(1'000'000'000, pA), .name = "clkA" });
+				Clock clkB({ .absoluteFrequency = hlim::ClockRational(1'000'000'000, pB), .name = "clkB" });
+				hlim::Node_Pin *pin = nullptr, *pout = nullptr;
+				UInt in;
+				{ ClockScope scope(clkA); auto p = pinIn(BitWidth(w)).setName("in"); pin = p.node(); in = p; }
+				scl::SynchronizeParams params; params.outStages = outStages; params.inStage = inStage;
+				UInt out = withReset ? scl::synchronizeGrayCode(in, ConstUInt(resetValue, BitWidth(w)), clkA, clkB, params)
+									 : scl::synchronizeGrayCode(in, clkA, clkB, params);
+				{ ClockScope scope(clkB); auto p = pinOut(out).setName("out"); pout = p.node(); }
+				design.postprocess();
+				vh::Sim s(design.getCircuit());
+				uint64_t cur = binToU64(std::string(w, '0'));
+				auto val = [&]() { return binOf(cur, w); };
+				s.set(pin, val()); s.eval();
+				o << "p > " << s.getPin(pout) << '\n';
+				// time in quarter nanoseconds
+				uint64_t now = 0;
+				auto advTo = [&](uint64_t t4) { if (t4 > now) { s.sim.advance(hlim::ClockRational(t4 - now, 4'000'000'000ull)); now = t4; } };
+				unsigned mode = 0, left = 0;
+				uint64_t mask = w >= 64 ? ~0ull : (1ull << w) - 1;
+				for (uint64_t t = 1; t <= 60ull * std::max(pA, pB) && t <= 400; t++) {
+					bool a = t % pA == 0, b = t % pB == 0;
+					if (!a && !b) continue;
+					// new input for the interval that ends at this edge: counter-like (+1/-1: gray-safe), arbitrary jumps, or held
+					if (left == 0) { mode = (unsigned) rng.below(5); left = 2 + (unsigned) rng.below(12); }
+					left--;
+					switch (mode) {
+						case 0: if (a) cur = (cur + 1) & mask; break;          // counts with the input clock
+						case 1: if (a) cur = (cur - 1) & mask; break;
+						case 2: cur = rng.next() & mask; break;               // arbitrary steps, also between the edges of the input clock
+						case 3: break;                                        // held: the output must settle on it
+						default: if (rng.chance(1, 3)) cur = (cur + 1) & mask; break;
+					}
+					advTo(4 * t - 1);
+					s.set(pin, val()); s.eval();
+					advTo(4 * t + 1);
+					o << "e " << (a ? "A" : "") << (b ? "B" : "") << ' ' << val() << " > " << s.getPin(pout) << '\n';
 				}
 			} catch (const std::exception &e) { o << "err " << errClass(e) << '\n'; }
 		} else if (prim == "divpipe") {
